@@ -17,7 +17,7 @@ Expr = /\d/ between {
     postfix: "!"
     left: "+"
 }
-start = (Z0 | U1 | B2 | T3 | Q5 | V1 | Expr)*
+start = (U1 | B2 | T3 | Q5 | V1 | Expr | ("z" >> Z0))*
 '''
 
 CLASSES = [('Z0', 0), ('U1', 1), ('B2', 2), ('T3', 3), ('Q5', 5), ('V1', 1)]
